@@ -4,6 +4,7 @@ import (
 	"fmt"
 	"go/token"
 	"go/types"
+	"strings"
 
 	"golang.org/x/tools/go/ssa"
 
@@ -387,6 +388,37 @@ func (e *Engine) convert(st *State, th *Thread, from, to types.Type, v Value, si
 // strBytes is the table of uninterpreted "string built from these bytes" terms.
 func (e *Engine) bytesOfString(st *State, th *Thread, s *term.Term, et types.Type, site string) Value {
 	if !s.IsConst() {
+		if s.Op == term.OpIte {
+			if e.decide(st, s.Args[0]) {
+				return e.bytesOfString(st, th, s.Args[1], et, site)
+			}
+			return e.bytesOfString(st, th, s.Args[2], et, site)
+		}
+		if s.Op == term.OpUF && strings.HasPrefix(s.S, "str_of_bytes_") {
+			cells := make([]Value, len(s.Args))
+			for i, a := range s.Args {
+				cells[i] = a
+			}
+			id := e.newObjID(st, th, site)
+			st.setObj(id, &Object{Kind: OMem, Cells: cells, T: et, ep: st.ep})
+			return Slice{Obj: id, Len: len(cells), Cap: len(cells)}
+		}
+		if s.Op == term.OpUF && s.S == "json_coerced" && s.Args[0].Op == term.OpUF && strings.HasPrefix(s.Args[0].S, "str_of_bytes_") {
+			// the bytes of a string that encoding/json had to coerce to valid UTF-8: some other bytes (the length
+			// is kept equal, an abstraction: any comparison with the original already fails)
+			orig := s.Args[0].Args
+			cells := make([]Value, len(orig))
+			var diff []*term.Term
+			for i, a := range orig {
+				b := term.UF(fmt.Sprintf("json_coerced_byte_%d", i), term.BV(8), s)
+				cells[i] = b
+				diff = append(diff, term.Not(term.Eq(a, b)))
+			}
+			st.PC = term.And(st.PC, term.Or(diff...))
+			id := e.newObjID(st, th, site)
+			st.setObj(id, &Object{Kind: OMem, Cells: cells, T: et, ep: st.ep})
+			return Slice{Obj: id, Len: len(cells), Cap: len(cells)}
+		}
 		// symbolic string: keep an opaque link through an uninterpreted pair of functions
 		e.mu.Lock()
 		sl, ok := e.strToBytes[s]
